@@ -109,6 +109,10 @@ class SockWorld:
         cur = self.net.current()
         self.msgs.append((cur.id if cur else None, hdr, msg))
         self.log.add("SUB.msg", hdr=repr(hdr), msg=repr(msg))
+        if self.raise_in_msg_sub == 2:
+            fut = self.loop.create_future()   # (see harness.Sub: raises == "cancelled")
+            fut.cancel()
+            await fut
         if self.raise_in_msg_sub:
             raise RuntimeError("message subscriber fails")
 
@@ -127,6 +131,10 @@ class SockWorld:
             hooks, self.on_disconnect_hooks = self.on_disconnect_hooks, []
             for h in hooks:
                 await h()
+        if self.raise_in_conn_sub == 2:
+            fut = self.loop.create_future()
+            fut.cancel()
+            await fut
         if self.raise_in_conn_sub:
             raise RuntimeError("connection subscriber fails")
 
